@@ -182,6 +182,22 @@ fn present(text: &str, sorting: usize, base_of_label: &dyn Fn(&str) -> Option<us
                 }
             }
         }
+        // single-formula rewriting variants (candidates from the rewriting built at construction time)
+        if do_stable && do_complete {
+            let bd2 = BdAdf::from_parser_with_stm_rewrite(&parser);
+            if let Some(l) = list(&nm2, &bd2.stable_bdd_representation(), &mut o) {
+                a.stable.push(l);
+            }
+            let mut nat = Adf::from_parser(&parser);
+            let ord = nat.ordering.clone();
+            let nm4 = move |i: usize| ord.name(Var(i));
+            if let Some(l) = list(&nm4, &nat.stable_bdd_representation(&bd2), &mut o) {
+                a.stable.push(l);
+            }
+            if let Some(l) = list(&nm2, &bd.stable_bdd_representation(), &mut o) {
+                a.stable.push(l);
+            }
+        }
         // hybrid
         let mut hy = bd.hybrid_step();
         let ord = hy.ordering.clone();
